@@ -28,6 +28,17 @@ def register(reg, P):
         "max_pool_like": (lambda x: jnp.max(x, axis=(1, 2)), 1, 1),
         "mixed_rank": (lambda x, v: x * v, (SH, (5,)), 1),
         "identity": (lambda x: x, 1, 1),
+        # axis-carrying operators on an otherwise elementwise path between the two boundary transposes:
+        # the transposes may only cancel around operators that are layout-invariant
+        "softmax_c": (lambda x: jax.nn.softmax(x * 2.0, axis=-1), 1, 1),
+        "softmax_w": (lambda x: jax.nn.softmax(x, axis=2) + 1.0, 1, 1),
+        "softmax_h_two": (lambda x, y: jax.nn.softmax(x + y, axis=1), 2, 1),
+        "log_softmax_c": (lambda x: jax.nn.log_softmax(jnp.tanh(x), axis=3), 1, 1),
+        "cumsum_w": (lambda x: jnp.cumsum(jnp.abs(x), axis=2), 1, 1),
+        "flip_h": (lambda x: jnp.flip(x, axis=1) * 2.0, 1, 1),
+        "cummax_c": (lambda x: jax.lax.cummax(x, axis=3), 1, 1),
+        "normalize_c": (lambda x: x / (jnp.sum(jnp.abs(x), axis=3, keepdims=True) + 1.0), 1, 1),
+        "softplus_sign": (lambda x: jax.nn.softplus(x) * jax.nn.soft_sign(x), 1, 1),
         # the flagged input itself is ALSO returned (un-flagged) next to a result of a unary chain: the
         # boundary transpose then has a graph output hanging off it and must survive transpose folding
         "passthrough_and_unary": (lambda x: (x, jax.nn.relu(x)), 1, 2),
